@@ -14,6 +14,14 @@ pub enum Item {
     /// the leading part of a function body, up to and including its first top-level `for` loop, as a function of
     /// its own: (function, new name, parameters as Rust source text, `let`s to drop, result variable, result type)
     Region(&'static str, &'static str, &'static str, &'static [&'static str], &'static str, &'static str),
+    /// the body of the first closure whose single parameter has the given name, inside a function or method, as a
+    /// function of its own: (owner type or "", function, closure parameter, new name, parameters as Rust text, result type)
+    ClosureBody(&'static str, &'static str, &'static str, &'static str, &'static str, &'static str),
+    /// a function translated under a replacement signature (for generic `R: Read` parameters that are byte slices
+    /// in the model): (function, new name, parameters as Rust text, result type)
+    FnWithSig(&'static str, &'static str, &'static str, &'static str),
+    /// an enum with unit and tuple variants
+    Enum(&'static str),
     /// a hand-written Lean definition emitted verbatim (a mirror of library / iterator plumbing): (what it mirrors, text)
     Mirror(&'static str, &'static str),
     /// a struct, with the fields that are kept (others are dropped: references back to owners, caches, ...)
@@ -25,6 +33,9 @@ impl Item {
         match self {
             Item::Fn(n) | Item::Const(n) | Item::Struct(n, _) => n.to_string(),
             Item::Mirror(n, _) => format!("mirror:{}", n),
+            Item::FnWithSig(f, n, ..) => format!("{}[as {}]", f, n),
+            Item::Enum(n) => n.to_string(),
+            Item::ClosureBody(o, f, p, n, ..) => format!("{}::{}[closure |{}|]=>{}", o, f, p, n),
             Item::NestedFn(o, n) => format!("{}::{}", o, n),
             Item::Region(f, n, ..) => format!("{}[..first for]=>{}", f, n),
             Item::Method(t, n) => format!("{}::{}", t, n),
@@ -122,6 +133,95 @@ pub fn units() -> Vec<Unit> {
                 Item::Method("SourceMapHermes", "get_scope_for_token"),
             ],
             imports: vec!["RsTypes"],
+        },
+        Unit {
+            module: "RsSourceView",
+            file: "sourceview.rs",
+            fns: vec![Item::ClosureBody(
+                "SourceView",
+                "get_line_slice",
+                "line",
+                "get_line_slice_of_line",
+                "line: &str, col: u32, span: u32",
+                "Option<&str>",
+            )],
+            imports: vec![],
+        },
+        Unit {
+            module: "RsPrefix",
+            file: "types.rs",
+            fns: vec![Item::Method("SourceMap", "prefix_source")],
+            imports: vec!["RsTypes"],
+        },
+        Unit {
+            module: "RsBuilder",
+            file: "builder.rs",
+            fns: vec![
+                Item::Struct("SourceMapBuilder", &["name_map", "names", "tokens", "source_map", "sources", "source_contents", "sources_mapping"]),
+                Item::Method("SourceMapBuilder", "add_source_with_id"),
+                Item::Method("SourceMapBuilder", "add_source"),
+                Item::Method("SourceMapBuilder", "get_source"),
+                Item::Method("SourceMapBuilder", "set_source"),
+                Item::Method("SourceMapBuilder", "set_source_contents"),
+                Item::Method("SourceMapBuilder", "get_source_contents"),
+                Item::Method("SourceMapBuilder", "has_source_contents"),
+                Item::Method("SourceMapBuilder", "add_name"),
+                Item::Method("SourceMapBuilder", "add_with_id"),
+                Item::Method("SourceMapBuilder", "add"),
+                Item::Method("SourceMapBuilder", "add_raw"),
+                Item::Method("SourceMapBuilder", "take_mapping"),
+            ],
+            imports: vec!["RsUtils", "RsTypes"],
+        },
+        Unit {
+            module: "RsAdjust",
+            file: "types.rs",
+            fns: vec![
+                Item::Struct("Range", &["start", "end", "value"]),
+                Item::NestedFn("adjust_mappings", "create_ranges"),
+                Item::Method("SourceMap", "adjust_mappings"),
+            ],
+            imports: vec!["RsUtils", "RsTypes"],
+        },
+        Unit {
+            module: "RsDetector",
+            file: "detector.rs",
+            fns: vec![
+                Item::Enum("SourceMapRef"),
+                Item::FnWithSig("locate_sourcemap_reference", "locate_sourcemap_reference", "rdr: &[u8]", "Result<Option<SourceMapRef>>"),
+            ],
+            imports: vec![],
+        },
+        Unit {
+            module: "RsJsonTypes",
+            file: "jsontypes.rs",
+            fns: vec![Item::Struct("MinimalRawSourceMap", &["version", "file", "sources", "source_root", "sources_content", "sections", "names", "mappings"])],
+            imports: vec![],
+        },
+        Unit {
+            module: "RsDetectCommon",
+            file: "detector.rs",
+            fns: vec![Item::Fn("is_sourcemap_common")],
+            imports: vec!["RsJsonTypes"],
+        },
+        Unit {
+            module: "RsRamBundle",
+            file: "ram_bundle.rs",
+            fns: vec![
+                Item::Const("RAM_BUNDLE_MAGIC"),
+                Item::Struct("RamBundleHeader", &["magic", "module_count", "startup_code_size"]),
+                Item::Struct("ModuleEntry", &["offset", "length"]),
+                Item::Struct("RamBundleModule", &["id", "data"]),
+                Item::Struct("IndexedRamBundle", &["bytes", "module_count", "startup_code_size", "startup_code_offset"]),
+                Item::Method("RamBundleHeader", "is_valid_magic"),
+                Item::Method("ModuleEntry", "is_empty"),
+                Item::Method("IndexedRamBundle", "parse"),
+                Item::Method("IndexedRamBundle", "module_count"),
+                Item::Method("IndexedRamBundle", "startup_code"),
+                Item::Method("IndexedRamBundle", "get_module"),
+                Item::Fn("is_ram_bundle_slice"),
+            ],
+            imports: vec![],
         },
         Unit {
             module: "RsDecodeTokens",
